@@ -243,6 +243,11 @@ pub fn reset_id(table: &mut RoutingTable, id: Id) {
     table.reset_id(id)
 }
 
+/// Bucket-level view of a stand-alone [RoutingTable] (same data as in a node [Snapshot]).
+pub fn table_snapshot(table: &RoutingTable) -> TableSnapshot {
+    TableSnapshot::new(table)
+}
+
 /// The harness side of a [Dht] handle whose actor channel is owned by the harness.
 #[derive(Debug)]
 pub struct Script(flume::Receiver<ActorMessage>);
